@@ -5,3 +5,4 @@ import Proofs.SetBuild
 import Proofs.NumLemmas
 import Proofs.EParseTotal
 import Proofs.EParseWF
+import Proofs.RT.Final
